@@ -99,10 +99,20 @@ def build_input(O, S, leafmap, costs, leafsyn=None, onames=None, snames=None, of
                 unordered=False, rootsyn=None, order=None):
     """-> (input, onode, snode) where onode/snode map model ids to ete3 nodes.  The leaf dictionaries are written in
     left-to-right leaf order, reversed, or rotated by half (order = "pre" / "rev" / "mid"; default: derived from the input)"""
+    pres_order = order or dict_order_of(leafmap)
+    if leafsyn is None and onames is None and pres_order == "rev":
+        # plain reconciliation inputs: every other presentation has NAMELESS object ancestors (plain Newick without labels)
+        onames = {v: ("" if O.children[v] else f"o{v}") for v in range(O.n)}
     ot, st, on, sn = build_trees(O, S, onames, snames, ofeats, sfeats)
     onode = nodes_by_index(O, ot)
     snode = nodes_by_index(S, st)
-    keys = ordered_leaves(sorted(leafmap), order or dict_order_of(leafmap))
+    if pres_order == "mid":
+        # branch lengths are not part of the model: trees carrying lengths other than 1 must give the same results
+        for v, node in snode.items():
+            node.dist = 0.25 + (v % 3)
+        for v, node in onode.items():
+            node.dist = 3.0 if v % 2 else 0.5
+    keys = ordered_leaves(sorted(leafmap), pres_order)
     los = {onode[v]: snode[leafmap[v]] for v in keys}
     cd = cost_dict(costs)
     lca = LowestCommonAncestor(st)
@@ -141,6 +151,9 @@ class Session:
         self.ot, self.st, _, _ = build_trees(O, S, on, sn)
         self.onode = nodes_by_index(O, self.ot)
         self.snode = nodes_by_index(S, self.st)
+        for v, node in self.snode.items():
+            node.dist = 0.5 + (v % 3)          # branch lengths other than 1 (not part of the model)
+        self.unnamed = unnamed
         self.lca = LowestCommonAncestor(self.st)
         self.los, self.costs, self.syn = {}, {}, {}
         if labelled:
@@ -148,6 +161,22 @@ class Session:
         else:
             self.inp = ReconciliationInput(self.ot, self.lca, self.los, self.costs)
         self.calls = 0
+
+    def rebuild(self, O):
+        """give the SAME root node object of the object tree a new topology (all former descendants detached, new ones
+        attached): anything remembered about the old tree under the identity of its root is now stale"""
+        root = self.ot
+        for c in list(root.children):
+            c.detach()
+        self.O = O
+        name = lambda v: ("" if (self.unnamed and O.children[v]) else f"o{v}")   # noqa: E731
+        root.name = name(O.root)
+        self.onode = {O.root: root}
+        for v in O.order_pre():
+            if O.parent[v] is not None:
+                self.onode[v] = self.onode[O.parent[v]].add_child(name=name(v))
+        self.los.clear()
+        self.syn.clear()
 
     def set(self, leafmap, costs, leafsyn=None, rootsyn=None):
         """update the shared input in place; -> (input, onode, snode)"""
